@@ -1,1 +1,26 @@
 // Kani harnesses compiled inside rs-matter/src/transport/session.rs (module `verif_kani`).
+
+// ---- C04: the receive window a session starts with (known finding D1b) ------------------------
+mod c04 {
+    use super::*;
+
+    fn fake_now() -> embassy_time::Instant {
+        embassy_time::Instant::from_ticks(kani::any())
+    }
+
+    /// Witness of known finding D1b (expected to FAIL): `Session::new` starts the receive window
+    /// at `RxCtrState::new(0)`, which treats counter 0 as already seen, so a first secured message
+    /// carrying counter 0 is refused although nothing has been accepted on the session yet.
+    // TIER: quick   KIND: complete
+    #[kani::proof]
+    #[kani::stub(embassy_time::Instant::now, fake_now)]
+    fn c04_kf_session_first_counter_zero() {
+        let mut s = Session::new(1, kani::any(), false, Address::new(), None, 0, 0, 0);
+        let first: u32 = kani::any();
+        // the window of a freshly created session accepts every first counter ...
+        let r = s.rx_ctr_state.post_recv(first, true, false);
+        kani::assert(r || first == 0, "C04.session.first_message_accepted_unless_zero");
+        // ... including 0, by the letter of the statement
+        kani::assert(r, "C04.session.first_counter_zero_accepted");
+    }
+}
